@@ -9,13 +9,75 @@ class Boom(Exception):
     pass
 
 
-def run_lock(n_threads: int, rounds: int, breaker, strategy, counter_mode=False, max_steps=20000):
-    """breaker: (thread_name, round) or None.  Returns dict with trace, outcomes, verdict."""
+SPEC_EVENT = {"A1": "InnerAcq", "E1": "InnerAcq", "R1": "InnerAcq", "X1": "InnerAcq", "A2": "EvNew",
+              "A2s": "EvSet", "E2s": "EvSet", "R2s": "EvSet", "A3": "InnerRel", "A3x": "InnerRel", "E3": "InnerRel",
+              "R3": "InnerRel", "X3": "InnerRel", "A4": "EvWake", "A5": "AcqRet", "CS": "Body"}
+UNLOGGED = ("ResetRet", "IncRet")
+
+
+def expected_events(hist):
+    """The events the harness must log along a labelled behaviour of OrderedLockGen.tla (silent actions dropped)."""
+    out = []
+    for h in hist:
+        ev = SPEC_EVENT.get(h["a"])
+        if ev is None:
+            continue
+        d = {"ev": ev, "t": h["t"], "q": h["q"], "b": h["b"]}
+        if ev == "EvSet":
+            d["c"] = list(h["c"])
+        if ev == "AcqRet":
+            d["o"] = h["o"]
+        if ev == "Body":
+            d["v"] = h["v"]
+        out.append(d)
+    return out
+
+
+class GuidedStrategy(ds.Strategy):
+    """Spec -> code: force the thread choices of a TLC behaviour.  At every scheduling decision the thread that logs the
+    next expected event runs; `main` runs while that thread has not been spawned yet.  A behaviour the code cannot follow
+    (the thread is not enabled, or keeps running without producing the event) is recorded in `diverged`."""
+
+    def __init__(self, expected, patience=40):
+        self.expected = expected
+        self.evs = None
+        self.diverged = None
+        self.patience = patience
+        self._k = -1
+        self._same = 0
+
+    def bind(self, evs):
+        self.evs = evs
+
+    def choose(self, sched, cands, can_time):
+        if not cands:
+            return "TIME"
+        k = sum(1 for e in self.evs if e["ev"] not in UNLOGGED)
+        if self.diverged is not None or k >= len(self.expected):
+            return cands[0]
+        want = self.expected[k]["t"]
+        self._same = self._same + 1 if k == self._k else 0
+        self._k = k
+        for c in cands:
+            if c.name == want and self._same <= self.patience:
+                return c
+        for c in cands:
+            if c.name == "main":
+                return c
+        self.diverged = {"at_event": k, "want": self.expected[k], "enabled": [c.name for c in cands], "stalled": self._same > self.patience}
+        return cands[0]
+
+
+def run_lock(n_threads: int, rounds: int, breaker, strategy, counter_mode=False, max_steps=20000, resets=0):
+    """breaker: (thread_name, round) or None.  resets: number of reset() calls made by one more thread ("rx") at
+    scheduler-chosen moments.  Returns dict with trace, outcomes, verdict."""
     mods = install.install()
     sdk_thr = mods["threading"]
     from aws_durable_execution_sdk_python.exceptions import OrderedLockError
 
     evs: list = []
+    if hasattr(strategy, "bind"):
+        strategy.bind(evs)
     ev_call: dict = {}        # id(event) -> [t, r]
     cur_round: dict = {}
     outcomes: dict = {}
@@ -116,8 +178,23 @@ def run_lock(n_threads: int, rounds: int, breaker, strategy, counter_mode=False,
                     if any(e["ev"] == "EvWake" and e["t"] == t for e in evs[n_before:]):
                         emit("AcqRet", o="lock_error")
 
+        reset_results: list = []
+
+        def resetter():
+            ok = 0
+            for _ in range(resets):
+                try:
+                    lock.reset()
+                    ok += 1
+                    reset_results.append("ok")
+                except OrderedLockError:
+                    reset_results.append("refused")
+                emit("ResetRet", t="rx", v=ok)
+
         def main():
             ths = [ds.Thread(target=worker, args=(n,), name=n) for n in names]
+            if resets and not counter_mode:
+                ths.append(ds.Thread(target=resetter, name="rx"))
             for th in ths:
                 th.start()
             for th in ths:
@@ -132,4 +209,5 @@ def run_lock(n_threads: int, rounds: int, breaker, strategy, counter_mode=False,
             "got": {f"{k[0]}:{k[1]}": v for k, v in got.items()},
             "verdict": sched.verdict, "verdict_info": sched.verdict_info, "steps": sched.steps,
             "breaker": list(breaker) if breaker else ["NoCall", 0], "choices": sched.choices,
-            "n_threads": n_threads, "rounds": rounds, "counter_mode": counter_mode}
+            "n_threads": n_threads, "rounds": rounds, "counter_mode": counter_mode, "resets": resets,
+            "reset_results": reset_results}
